@@ -90,6 +90,8 @@ func fabricatedExpressions(c *Ctx, rule string) {
 func counterAgreement(c *Ctx, rule string) {
 	pp := c.pkg("parser/v2")
 	info := pp.TypesInfo
+	runeLenHelper = func(call *ast.CallExpr) bool { return callsEncodedLenHelper(pp, call) || callsEncodedLenHelper(c.pkg("generator"), call) }
+	defer func() { runeLenHelper = nil }()
 	fd := findFunc(pp, "SourceMap", "Add")
 	if fd == nil {
 		c.viol(rule, "anchor-lost:SourceMap.Add", "", "parser.SourceMap.Add not found (exported API)")
@@ -126,9 +128,19 @@ func counterAgreement(c *Ctx, rule string) {
 								okAll = false
 							}
 						case *ast.CallExpr:
-							if fid, isID := r.Fun.(*ast.Ident); !isID || fid.Name != "make" {
-								okAll = false
+							if fid, isID := r.Fun.(*ast.Ident); isID && fid.Name == "make" {
+								break
 							}
+							// fetched (and created when absent) by a helper: v := columnsOf(M, k) stands for M[k]
+							if i == 0 && len(r.Args) == 2 && isGetOrCreateRow(pp, calleeOf(info, r)) {
+								ix := &ast.IndexExpr{X: r.Args[0], Lbrack: r.Lparen, Index: r.Args[1], Rbrack: r.Rparen}
+								if fetch == nil || types.ExprString(fetch) == types.ExprString(ix) {
+									fetch, fetchAt = ix, as.Pos()
+									storedBack = true
+									break
+								}
+							}
+							okAll = false
 						default:
 							okAll = false
 						}
@@ -608,6 +620,10 @@ func appendUniq(s []string, v string) []string {
 	return s
 }
 
+// runeLenHelper: set by counterAgreement — a call of a function of the package under analysis whose body takes the
+// rune's encoded length (runeWidth(r): utf8.RuneLen, 1 for an invalid rune).
+var runeLenHelper func(call *ast.CallExpr) bool
+
 // isRuneLenVar: the variable is assigned from utf8.RuneLen / utf8.EncodeRune in the function.
 func isRuneLenVar(fd *ast.FuncDecl, name string) bool {
 	res := false
@@ -626,6 +642,9 @@ func isRuneLenVar(fd *ast.FuncDecl, name string) bool {
 						}
 					}
 					if fn == "utf8.RuneLen" || fn == "utf8.EncodeRune" {
+						res = true
+					}
+					if runeLenHelper != nil && runeLenHelper(call) {
 						res = true
 					}
 				}
